@@ -158,10 +158,10 @@ def corruption_test(run, prop, src_dir, corrupt_fn, n=8):
 FAM_STRIDE = {  # family: (quick stride, thorough stride); stride 1 = exhaustive
     "EP": (331, 6), "EPEDGE": (1, 1), "ONLYEP": (7, 1), "PIN": (53, 1), "CASTLE": (5, 1),
     "PROMO": (2, 1), "MAT": (61, 2), "CHK": (1999, 37), "AMBIG": (997, 11), "RAW": (1, 1), "MINOR": (23, 1), "MULTICHK": (499, 3), "ROOKCAP": (1, 1), "EPCHK": (997, 9), "STALEMIN": (3, 1), "EPX": (13, 1), "EPCHKX": (41, 1), "PINMATE": (23, 1), "DBLCHK": (1, 1), "DBLPIN": (499, 5),
-    "ONLYDBL": (3, 1), "PROMOEP": (1, 1), "CASTLEEP": (1, 1), "BATTERY": (149, 3), "EDGEPAWN": (1, 1), "ONLYPROMO": (200, 4), "EPEVADE": (30, 1), "ONLYEPCHK": (20, 2), "ONLYEPCHKPRE": (20, 2), "ONLYCAP": (3000, 100), "EDGESTALE": (10, 1),
+    "ONLYDBL": (3, 1), "PROMOEP": (1, 1), "CASTLEEP": (1, 1), "BATTERY": (149, 3), "EDGEPAWN": (1, 1), "ONLYPROMO": (200, 4), "EPEVADE": (30, 1), "ONLYEPCHK": (20, 2), "ONLYEPCHKPRE": (20, 2), "ONLYCAP": (3000, 100), "EDGESTALE": (10, 1), "EPRANK2": (10, 1),
 }
 FAMS_FOR = {
-    "C01": ["EP", "EPX", "EPEDGE", "ONLYEP", "PIN", "DBLPIN", "CASTLE", "PROMO", "CHK", "MULTICHK", "BATTERY", "EDGEPAWN", "EPEVADE", "ONLYEPCHK", "ONLYCAP", "EDGESTALE"],
+    "C01": ["EP", "EPX", "EPEDGE", "ONLYEP", "PIN", "DBLPIN", "CASTLE", "PROMO", "CHK", "MULTICHK", "BATTERY", "EDGEPAWN", "EPEVADE", "ONLYEPCHK", "ONLYCAP", "EDGESTALE", "EPRANK2"],
     "C03": ["EP", "EPEDGE", "CASTLE", "CASTLEEP", "PROMO", "PROMOEP", "MAT", "ROOKCAP"],
     "C06": ["EP", "EPEDGE", "PIN", "CASTLE", "PROMO", "CHK", "BATTERY", "EDGEPAWN", "EPEVADE"],
     "C07": ["EPX", "ONLYEP", "ONLYDBL", "ONLYPROMO", "PINMATE", "PIN", "MAT", "MINOR", "STALEMIN", "CHK", "MULTICHK", "CASTLE", "EPEVADE", "ONLYEPCHK", "ONLYCAP", "EDGESTALE"],
@@ -172,7 +172,7 @@ FAMS_FOR = {
     "C08": ["ROOKCAP", "PROMO", "CASTLE", "CASTLEEP", "EPX"],
     "C10": ["EPX", "EPEDGE", "CASTLE", "PROMO", "BATTERY", "EPEVADE"],
     "C11": ["RAW", "EPEDGE", "CASTLE"],
-    "C18": ["EP", "ONLYEP", "CASTLE", "ROOKCAP", "MAT", "MINOR", "PIN", "CHK", "EDGEPAWN", "PROMO", "MULTICHK"],
+    "C18": ["EP", "ONLYEP", "CASTLE", "ROOKCAP", "MAT", "MINOR", "PIN", "CHK", "EDGEPAWN", "PROMO", "MULTICHK", "EPRANK2"],
     "C14": ["STALEMIN", "MINOR", "MAT", "ONLYDBL", "PINMATE", "ONLYPROMO", "ONLYEPCHK", "PROMO", "EDGESTALE"],
     "C17": ["PROMO", "AMBIG", "CASTLE"],
     "C19": ["CHK", "AMBIG", "MULTICHK", "EPEDGE"],
@@ -189,7 +189,7 @@ FAM_STRIDE_FOR = {
     "C07": {"MULTICHK": (2500, 40)},
     "C19": {"MULTICHK": (1500, 20)},
     "C18": {"MULTICHK": (2500, 40)},
-    "C09": {"ONLYEPCHKPRE": (20, 2), "ONLYCAP": (3000, 100), "EDGESTALE": (10, 1), "EPEVADE": (300, 10), "DBLCHK": (2, 1), "MULTICHK": (2500, 40)},
+    "C09": {"ONLYEPCHKPRE": (20, 2), "ONLYCAP": (3000, 100), "EDGESTALE": (10, 1), "EPRANK2": (10, 1), "EPEVADE": (300, 10), "DBLCHK": (2, 1), "MULTICHK": (2500, 40)},
     "C14": {"ONLYDBL": (12, 1), "PINMATE": (120, 4), "ONLYPROMO": (800, 16), "ONLYEPCHK": (40, 4), "PROMO": (8, 1), "EDGESTALE": (40, 4)},
     "C08": {"CASTLE": (200, 10), "EPX": (100, 10), "PROMO": (4, 1), "ROOKCAP": (2, 1)},
     "C04": {"CASTLE": (80, 4), "CASTLEEP": (1, 1), "PROMOEP": (3, 1)},
